@@ -214,6 +214,22 @@ func condEffect(cond ssa.Value, A map[ssa.Value]bool, in efState, cfg errFlowCfg
 			if A[c.X] && isNilConst(c.Y) || A[c.Y] && isNilConst(c.X) {
 				isErr = true
 			}
+			if !isErr {
+				// "first error wins": a captured/named error result of the enclosing function is tested;
+				// where it is already non-nil the function is failing anyway and the tracked error may be dropped.
+				var other ssa.Value
+				if isNilConst(c.Y) {
+					other = c.X
+				} else if isNilConst(c.X) {
+					other = c.Y
+				}
+				if other != nil && isOuterErrorLoad(other) {
+					if c.Op == token.NEQ {
+						return stZ, in
+					}
+					return in, stZ
+				}
+			}
 			if isErr {
 				nn := in
 				if nn == stU {
@@ -262,6 +278,16 @@ func isAbortCall(c *ssa.CallCommon) bool {
 		return true
 	}
 	return false
+}
+
+// isOuterErrorLoad: load of an error-typed free variable (a named result captured by a deferred closure).
+func isOuterErrorLoad(v ssa.Value) bool {
+	u, ok := v.(*ssa.UnOp)
+	if !ok || u.Op != token.MUL || !isErrorType(u.Type()) {
+		return false
+	}
+	_, isFree := u.X.(*ssa.FreeVar)
+	return isFree
 }
 
 // flowOne runs the dataflow for one call site; returns nil if the discipline holds, else a
@@ -343,6 +369,12 @@ func flowOne(p *Program, fn *ssa.Function, site *ssa.Call, e ssa.Value, cfg errF
 					} else if st == stN {
 						report(in, fmt.Sprintf("error is known non-nil but control continues to the next effectful call (%s)", label))
 					}
+					stop = true
+				}
+			case *ssa.Store:
+				if _, isFree := x.Addr.(*ssa.FreeVar); isFree && isErrorType(x.Val.Type()) && (A[x.Val] || wrapsAlias(x.Val, A)) {
+					// error handed to the enclosing function's named result
+					st = stZ
 					stop = true
 				}
 			case *ssa.Panic:
